@@ -156,6 +156,35 @@ fn typed_signal_messages(ctx: &mut Ctx, rng: &mut Rng) {
     msm!(4, Msg1111, QzssSigId);
     msm!(5, Msg1121, BdsSigId);
     msm!(6, Msg1131, NavicSigId);
+    // lists in an order of the caller's choosing, set through the typed API (a Deserialize impl that "normalises"
+    // the order cannot be seen through messages that were themselves built by Deserialize)
+    macro_rules! msm_order {
+        ($($var:ident),*) => {$(
+            for _ in 0..3 {
+                let n = match Message::$var(Default::default()).number() { Some(n) => n, None => continue };
+                if let Some(Ok(Some(Message::$var(t0)))) = gen::lib_frame(n, rng).map(|f| decode(&f)) {
+                    for mode in 0..4 {
+                        let mut t = t0.clone();
+                        {
+                            let cells = t.data_segment.signal_data.as_mut_slice();
+                            match mode {
+                                0 => cells.reverse(),
+                                1 if cells.len() > 1 => { let k = rng.usize_below(cells.len() - 1); cells.swap(k, k + 1) }
+                                2 => rng.shuffle(cells),
+                                _ => cells.sort_by_key(|c| (c.satellite_id, c.signal_id.band(), c.signal_id.attribute())),
+                            }
+                        }
+                        if mode % 2 == 0 {
+                            t.data_segment.satellite_data.as_mut_slice().reverse();
+                        }
+                        ctx.count("typed_messages_with_lists_in_caller_order");
+                        check(ctx, &Message::$var(t), "typed_list_order");
+                    }
+                }
+            }
+        )*};
+    }
+    msm_order!(Msg1074, Msg1077, Msg1084, Msg1087, Msg1094, Msg1097, Msg1107, Msg1114, Msg1117, Msg1124, Msg1127, Msg1137, Msg1071, Msg1085, Msg1096);
     for &(b, a) in &descs {
         let mut t = Msg1059T::default();
         t.biases.push(Msg1059CodeBias { satellite_id: 3, signal_id: GpsSigId::new(b, a), bias_m: 0.25 });
